@@ -114,6 +114,11 @@ func c10monitor(cw *caseWriter) func(tag string, in, obs []uint64) {
 			if len(o) == 0 {
 				continue
 			}
+			if e.kind == 4 && e.short && o[0] == 10 && len(o) > 2 && o[2] == 1 {
+				// C02: a restore must leave the FSM in the state of the agreed entries up to the snapshot's index
+				cw.monitor("C02", tag, "installsnapshot-accepted-a-truncated-stream", "event %d: InstallSnapshot whose stream ended before Size bytes was answered success (stored and restored)", i)
+				cw.monitor("C12", tag, "installsnapshot-accepted-a-truncated-stream", "event %d: InstallSnapshot whose stream ended before Size bytes was answered success (stored and restored)", i)
+			}
 			switch {
 			case o[0] == 20 || o[0] == 30:
 				prev = check(i+1, o[1:])
@@ -159,6 +164,11 @@ func c10gen(cw *caseWriter, tier string, r *rng) {
 			// entries 2,3 and the configuration entry 4 stored, only 3 committed: the snapshot must record the configuration of index 1
 			return [][]uint64{evAppend(3, 3, 3, 1, 1, e1, 3, 0, nil), evSnapshot(0, nil), evAppend(3, 3, 3, 4, 3, e2, 6, 0, nil), evSnapshot(0, nil)}
 		}, []int{1, 2, 1, 2}},
+		{"snapshot-stream-ends-early", func(uint64) [][]uint64 {
+			// fewer bytes on the wire than Size says: refused, nothing durable, the FSM untouched; the complete transfer follows
+			return [][]uint64{evAppend(3, 3, 3, 1, 1, e1, 4, 0, nil), evInstall(3, 3, 3, 6, 3, cfg4, 4, []uint64{302, 303}, true, 0, nil),
+				evInstall(3, 3, 3, 6, 3, cfg4, 4, []uint64{302, 303, 305, 306}, false, 0, nil)}
+		}, []int{1, 0, 3}},
 		{"install-behind-log", func(uint64) [][]uint64 {
 			return [][]uint64{evAppend(3, 3, 3, 1, 1, append(append([][4]uint64{}, e1...), e2...), 3, 0, nil),
 				evInstall(3, 3, 3, 4, 3, cfg4, 4, []uint64{302, 303}, false, 0, nil), evAppend(3, 3, 3, 6, 3, nil, 6, 0, nil)}
@@ -251,4 +261,5 @@ func runC02(cw *caseWriter, tier string, seed uint64) {
 		runScenarios(cw, 1, seed*100000, 2000, 12)
 		runScenarios(cw, 7, seed*100000, 600, 12)
 	}
+	// runC102(cw, tier, seed, 0) // enabled once the model tracks nextIndex (see ClusterCommit.v)
 }
